@@ -51,14 +51,14 @@ Print Assumptions C06_model_holds.
 Definition ex_A : schema :=
   [mkTable 0 [mkCol 0 (mkTy 0 []) false true None; mkCol 1 (mkTy 3 [20]) true false (Some (DLit [53]));
               mkCol 2 (mkTy 5 [10;2]) true false None; mkCol 4 (mkTy 0 []) true false (Some (DExpr [49;46;53]))]
-             [Uq 1 [1]; Ix 2 [2;1] false] [mkFk 0 [2] 0 [0]];
+             [Uq 1 [1]; Ix 2 [2;1] false] [mkFk 0 [2] 0 [0] no_opts true];
    mkTable 1 [mkCol 0 (mkTy 0 []) false true None] [] []].
 Definition ex_B : schema :=
   [mkTable 0 [mkCol 0 (mkTy 0 []) false true None; mkCol 1 (mkTy 4 []) false false (Some (DExpr [39;120;39]));
               mkCol 3 (mkTy 9 []) true false None; mkCol 4 (mkTy 0 []) true false (Some (DExpr [40;49;46;53;41]))]
-             [Ix 1 [1] true] [mkFk 1 [3] 0 [0]];
+             [Ix 1 [1] true] [mkFk 1 [3] 0 [0] (mkFkOpts None (Some [99;97;115;99;97;100;101]) (Some true) (Some [68;101;102;101;114;114;101;100])) true];
    mkTable 2 [mkCol 0 (mkTy 0 []) false true None; mkCol 1 (mkTy 1 []) true false (Some (DLit [97;32;98]))] [Uq 20 [1]; Ix 21 [1;0] false]
-             [mkFk 20 [1;0] 0 [0;1]]].
+             [mkFk 20 [1;0] 0 [0;1] no_opts true]].
 Example C06_nonvacuous :
   inclass_C06 (ex_A, ex_B) = true /\ length (diff (mkCfg true true) (reflect_sqlite ex_A) ex_B) = 11%nat /\
   check_C06 (ex_A, ex_B) (model_C06 (ex_A, ex_B)) = true.
